@@ -89,3 +89,21 @@ let () =
             | None -> obs "hdrof openerr"
             | Some h' -> (match h_header h' with None -> obs "hdrof panic" | Some hd -> obs "hdrof %s" (show_header hd))))
     | _ -> failwith "hdrof")
+
+(* recreate NAME layout m M x X : Create over an existing file: the length is the new header's *)
+let () =
+  register "recreate" (fun tk -> match tk with
+    | _ :: name :: rest ->
+      let (l, rest) = parse_layout rest in
+      (match rest with
+       | ["m"; m; "x"; x] ->
+         (match create (zi m) (z_of_hex x) l with
+          | None -> obs "recreate err"
+          | Some h ->
+            set_file name (Some (sync h));
+            (match h_header h with
+             | Some hd -> obs "recreate ok size=%s" (dec_of_z (expected_file_size hd))
+             | None -> obs "recreate err"))
+       | _ -> failwith "recreate")
+    | _ -> failwith "recreate")
+
